@@ -6,8 +6,8 @@ import (
 	"math/rand/v2"
 	"os"
 	"path/filepath"
-	"strconv"
 	"runtime"
+	"strconv"
 	"strings"
 	"sync"
 
@@ -334,7 +334,13 @@ func c14Invalid(c *vkit.Ctx, r *rand.Rand, i int) {
 	snaps.VerifResetProcessState()
 	vkit.Backdate(e.root)
 	d0 := vkit.TakeDigest(e.root)
-	out, sig, _, _ := e.call(api, jc, "docs", "TestJ", formArg(form, bad, nil), m.upd)
+	var arg any = formArg(form, bad, nil)
+	if bad == "" && form == "bytes" && r.IntN(2) == 0 {
+		// the empty document as a byte slice that was never filled in
+		arg, in["form"] = []byte(nil), "nil-bytes"
+		c.Count("invalid_nil_byte_slice", 1)
+	}
+	out, sig, _, _ := e.call(api, jc, "docs", "TestJ", arg, m.upd)
 	c.Count("invalid_calls", 1)
 	c.Count("invalid:"+class, 1)
 	if out != vkit.Failed {
